@@ -6,6 +6,7 @@ import (
 	"path/filepath"
 	"strings"
 	"sync"
+	"sync/atomic"
 	"time"
 
 	"github.com/vicanso/pike/config"
@@ -31,11 +32,13 @@ type c19Group struct {
 	Servers []int    `json:"origin_indexes"`
 	Up      []bool   `json:"up"`
 	History []string `json:"history"`
+	// ProxyTimeout of the group's location (0 = none)
+	ProxyTimeout time.Duration `json:"proxy_timeout"`
 }
 
 func c19(r *hx.Run) {
 	r.Level = "fault_enumeration"
-	r.Rule = "G upstream groups in one in-process pike (whose unchanged configuration is re-applied before odd phases) plus two groups behind the real binary (eight round-robin primaries; primary+backup with policy first; all down / all up alternately, so that more than eight transitions to sick happen), each with 1-4 servers (every primary/backup mix incl. backups only), policy from {roundRobin, first, random, leastconn, default}, health check by ping path or by port. Phases: initial (all up), then random up/down vectors (all down, primaries down, one down, ...), finally all up again; servers are really stopped and restarted on the same port. After each change the driver waits until a live server of the group has seen two complete health-check rounds that began after the change (pings/connections are visible at the origins; 11.5 s when nothing is alive), then sends 12 sequential requests per group: each must be served by a healthy primary, or by a healthy backup only if no primary is healthy; roundRobin counts over healthy primaries differ by <= 1; with nothing healthy every request gets a 5xx within 2 s; after recovery traffic resumes. Non-trivial = settled phase with at least one server down; distinct = (policy, ping kind, backup mix, up vector)."
+	r.Rule = "G upstream groups in one in-process pike (whose unchanged configuration is re-applied before odd phases) plus two groups behind the real binary (eight round-robin primaries; primary+backup with policy first; all down / all up alternately, so that more than eight transitions to sick happen), each with 1-4 servers (every primary/backup mix incl. backups only), policy from {roundRobin, first, random, leastconn, default}, health check by ping path or by port. Phases: initial (all up), then random up/down vectors (all down, primaries down, one down, ...), finally all up again; servers are really stopped and restarted on the same port. After each change the driver waits until a live server of the group has seen two complete health-check rounds that began after the change (pings/connections are visible at the origins; 11.5 s when nothing is alive), then sends 12 sequential requests per group: each must be served by a healthy primary, or by a healthy backup only if no primary is healthy; roundRobin counts over healthy primaries differ by <= 1; with nothing healthy every request gets a 5xx within 2 s; after recovery traffic resumes. Finally, with everything healthy, single requests fail for reasons that are not the server's (the client gives up on a slow request after 150 ms; a request exceeds the location's 400 ms proxy timeout) and, for groups with backups, one slow request is held in flight on every primary: the 12 requests that follow are judged by the same rule (the servers never failed a health check). Non-trivial = settled phase with at least one server down; distinct = (policy, ping kind, backup mix, up vector)."
 	r.Assume = []string{"the health checker's 5 s ticker has no clock seam: settling is observed, the run is wall-clock bound", "behaviour inside the unsettled window is not judged"}
 	rnd := rand.New(rand.NewSource(r.Seed))
 	nGroups := r.Pick(14, 100)
@@ -70,7 +73,12 @@ func c19(r *hx.Run) {
 				u.Servers = append(u.Servers, config.UpstreamServerConfig{Addr: origins[oi], Backup: g.Backup[i]})
 			}
 			cfg.Upstreams = append(cfg.Upstreams, u)
-			cfg.Locations = append(cfg.Locations, config.LocationConfig{Name: fmt.Sprintf("l%d", g.ID), Upstream: u.Name, Prefixes: []string{fmt.Sprintf("/g%d/", g.ID)}})
+			lc := config.LocationConfig{Name: fmt.Sprintf("l%d", g.ID), Upstream: u.Name, Prefixes: []string{fmt.Sprintf("/g%d/", g.ID)}}
+			if g.ID%2 == 0 {
+				lc.ProxyTimeout = "400ms"
+				g.ProxyTimeout = 400 * time.Millisecond
+			}
+			cfg.Locations = append(cfg.Locations, lc)
 			names = append(names, fmt.Sprintf("l%d", g.ID))
 		}
 		cfg.Servers = []config.ServerConfig{{Addr: srvAddr(port), Locations: names, Cache: "c19"}}
@@ -170,8 +178,14 @@ func c19(r *hx.Run) {
 		}
 		wg.Wait()
 	}
+	var judgeGroup func(g *c19Group, phase string)
 	judge := func(phase string) {
 		for _, g := range groups {
+			judgeGroup(g, phase)
+		}
+	}
+	judgeGroup = func(g *c19Group, phase string) {
+		{
 			var healthyPrim, healthyBack []int
 			for i, up := range g.Up {
 				if up {
@@ -319,6 +333,67 @@ func c19(r *hx.Run) {
 			name = "recovery"
 		}
 		judge(name)
+	}
+	// ---- faults of single requests while every server is healthy: a client that gives up on a slow
+	// request, a request that exceeds the location's proxy timeout, and (leastconn) requests arriving
+	// while every primary has one in flight. The servers keep passing their health checks throughout,
+	// so the very next requests must still be served by the healthy primaries.
+	if !r.TooMany() {
+		gate := make(chan struct{})
+		var heldN atomic.Int64
+		w.Farm.SetScript(func(f *hx.Fetch) *hx.Reply {
+			if strings.Contains(f.URI, "/slow") {
+				heldN.Add(1)
+				return &hx.Reply{Status: 200, Header: [][2]string{{"Cache-Control", "no-store"}}, Body: []byte("ok"), Gate: gate}
+			}
+			return okScript(f)
+		})
+		var slow sync.WaitGroup
+		for _, g := range groups {
+			if g.World != "inproc" || r.TooMany() {
+				continue
+			}
+			nPrim := 0
+			for i := range g.Up {
+				if !g.Backup[i] {
+					nPrim++
+				}
+			}
+			// (a) the client gives up after 150 ms
+			reqN++
+			res := g.w.cl.Do(hx.Req{Method: "POST", Addr: g.w.addr, Host: "c19.example", URI: fmt.Sprintf("/g%d/slow?n=%d", g.ID, reqN), Body: []byte("x"), Timeout: 150 * time.Millisecond})
+			if res.Err != nil {
+				r.Add("slow_requests_abandoned_by_the_client", 1)
+			}
+			judgeGroup(g, "after_client_abort")
+			// (b) the location's proxy timeout fires
+			if g.ProxyTimeout > 0 {
+				reqN++
+				res := g.w.cl.Do(hx.Req{Method: "POST", Addr: g.w.addr, Host: "c19.example", URI: fmt.Sprintf("/g%d/slow?n=%d", g.ID, reqN), Body: []byte("x"), Timeout: 8 * time.Second})
+				if res.Status >= 500 {
+					r.Add("slow_requests_cut_by_proxy_timeout", 1)
+				}
+				judgeGroup(g, "after_proxy_timeout")
+			}
+			// (c) one request in flight on every primary, more arriving meanwhile
+			if nPrim > 0 && nPrim < len(g.Up) && g.ProxyTimeout == 0 {
+				base := heldN.Load()
+				for k := 0; k < nPrim; k++ {
+					reqN++
+					slow.Add(1)
+					go func(n int) {
+						defer slow.Done()
+						g.w.cl.Do(hx.Req{Method: "POST", Addr: g.w.addr, Host: "c19.example", URI: fmt.Sprintf("/g%d/slow?n=%d", g.ID, n), Body: []byte("x"), Timeout: 60 * time.Second})
+					}(reqN)
+					hx.WaitUntil(5*time.Second, func() bool { return heldN.Load() >= base+int64(k)+1 })
+				}
+				r.Add("groups_probed_with_every_primary_busy", 1)
+				judgeGroup(g, "every_primary_busy")
+			}
+		}
+		close(gate)
+		slow.Wait()
+		w.Farm.SetScript(okScript)
 	}
 	for i := 0; i < 3 && i < len(groups); i++ {
 		r.Sample(groups[i])
